@@ -46,6 +46,18 @@ func (g *VCGen) modLoc(env *SpecEnv, e Expr) []modLoc {
 		if base.Go == nil {
 			env.fail("modifies: untyped base")
 		}
+		// captured variables: read through the variable's cell
+		for {
+			pt, ok := base.Go.Underlying().(*types.Pointer)
+			if !ok {
+				break
+			}
+			if _, inner := pt.Elem().Underlying().(*types.Pointer); !inner {
+				break
+			}
+			heap := g.so.heapFor(pt.Elem())
+			base = SpecVal{fmt.Sprintf("(select %s %s)", env.heapT(env.cur, heap), base.T), "Int", pt.Elem()}
+		}
 		pt, ok := base.Go.Underlying().(*types.Pointer)
 		if !ok {
 			// nested struct field of a location: coarsen to the enclosing top-level field
@@ -116,6 +128,9 @@ func (g *VCGen) modLoc(env *SpecEnv, e Expr) []modLoc {
 			v := env.ident(id.Name)
 			_ = v
 			return []modLoc{{heap: "G!" + smtSym(env.pkg.Name()+"."+id.Name), kind: "global"}}
+		case "chanstate":
+			g.chanHeaps()
+			return []modLoc{{heap: chanSendsHeap, kind: "global"}, {heap: chanClosedHeap, kind: "global"}}
 		case "ghost":
 			id, ok := x.Args[0].(EIdent)
 			if !ok {
